@@ -2,12 +2,14 @@
    Machine-checked part (closed by [exact]; AlgR/Dissip.v, AlgR/Lyapunov.v): the time-domain
    bounded-real inequality — a storage function with V(x+) - V(x) <= gamma^2 |u|^2 - |y|^2 at
    every step gives sum |y|^2 <= gamma^2 sum |u|^2 + V(x0) for EVERY input sequence and
-   horizon — and stability from the Lyapunov part.  NOT machine-checked (named in DESIGN.md):
-   the identification of the l2-induced gain with the H-infinity norm (Parseval) and the
-   congruence taking the code's 4x4 block LMI to the storage form.  The run checks the
-   reported gamma_ against an independent frequency-grid evaluation of the norm. *)
+   horizon — and stability from the Lyapunov part; and (AlgR/BoundedReal.v) the code's own 4x4
+   block, read as a quadratic form (C10_alg), yields that one-step inequality for the DUAL system
+   x+ = A^T x + C^T w, z = B^T x + D^T w without inverting P, hence its l2 gain is at most gamma_.
+   NOT machine-checked (named in DESIGN.md): the two frequency-domain facts that the H-infinity
+   norm of a system equals that of its dual and equals the l2-induced gain (Parseval).  The run
+   checks the reported gamma_ against an independent frequency-grid evaluation of the norm. *)
 From Coq Require Import Reals List.
-From PK.AlgR Require Import Dissip Lyapunov.
+From PK.AlgR Require Import Dissip Lyapunov BoundedReal.
 Local Open Scope R_scope.
 
 Theorem C10_l2_gain : forall (X W : Type) (step : X -> W -> X) (Vf : X -> R) (s : X -> W -> R)
@@ -32,6 +34,39 @@ Theorem C10_stability : forall (V : Type) (vscale : R -> V -> V) (Q : V -> V -> 
   forall v lam, 0 < Q v v -> A v = vscale lam v -> Rabs lam <= 1.
 Proof. intros V vscale Q A Hs Hc H. exact (lyap_real_eig V vscale Q A Hs Hc 1 Rlt_0_1 H). Qed.
 Print Assumptions C10_stability.
+
+(* the code's block LMI (as a quadratic form) => one-step dissipation of the dual system, no inverse of P *)
+Theorem C10_block_one_step : forall (X W Z : Type) (xadd : X -> X -> X) (xscale : R -> X -> X)
+  (zadd : Z -> Z -> Z) (zscale : R -> Z -> Z) (Q : X -> X -> R) (ipZ : Z -> Z -> R) (ipW : W -> W -> R)
+  (At : X -> X) (Ct : W -> X) (Bt : X -> Z) (Dt : W -> Z),
+  (forall u v, Q u v = Q v u) -> (forall u v w, Q (xadd u v) w = Q u w + Q v w) ->
+  (forall c u v, Q (xscale c u) v = c * Q u v) ->
+  (forall u v, ipZ u v = ipZ v u) -> (forall u v w, ipZ (zadd u v) w = ipZ u w + ipZ v w) ->
+  (forall c u v, ipZ (zscale c u) v = c * ipZ u v) ->
+  forall g, 0 < g ->
+  (forall a b c d, 0 <= hinf_form X W Z Q ipZ ipW At Ct Bt Dt g a b c d) ->
+  forall x w,
+  Q (dual_step X W xadd At Ct x w) (dual_step X W xadd At Ct x w) - Q x x
+  <= g * ipW w w - / g * ipZ (dual_out X W Z zadd Bt Dt x w) (dual_out X W Z zadd Bt Dt x w).
+Proof. exact hinf_block_one_step. Qed.
+Print Assumptions C10_block_one_step.
+
+(* ... hence, for every input sequence and horizon, the l2 gain of the dual system is at most g *)
+Theorem C10_block_l2_gain : forall (X W Z : Type) (xadd : X -> X -> X) (xscale : R -> X -> X)
+  (zadd : Z -> Z -> Z) (zscale : R -> Z -> Z) (Q : X -> X -> R) (ipZ : Z -> Z -> R) (ipW : W -> W -> R)
+  (At : X -> X) (Ct : W -> X) (Bt : X -> Z) (Dt : W -> Z),
+  (forall u v, Q u v = Q v u) -> (forall u v w, Q (xadd u v) w = Q u w + Q v w) ->
+  (forall c u v, Q (xscale c u) v = c * Q u v) ->
+  (forall u v, ipZ u v = ipZ v u) -> (forall u v w, ipZ (zadd u v) w = ipZ u w + ipZ v w) ->
+  (forall c u v, ipZ (zscale c u) v = c * ipZ u v) ->
+  forall g, 0 < g -> (forall x, 0 <= Q x x) ->
+  (forall a b c d, 0 <= hinf_form X W Z Q ipZ ipW At Ct Bt Dt g a b c d) ->
+  forall (ws : list W) (x0 : X),
+  traj_sum X W (dual_step X W xadd At Ct)
+    (fun x w => ipZ (dual_out X W Z zadd Bt Dt x w) (dual_out X W Z zadd Bt Dt x w)) ws x0
+  <= g ^ 2 * traj_sum X W (dual_step X W xadd At Ct) (fun _ w => ipW w w) ws x0 + g * Q x0 x0.
+Proof. exact hinf_block_l2_gain. Qed.
+Print Assumptions C10_block_l2_gain.
 
 (* ---------- the alternation loop (Altern.v): for every solver oracle, stop-flag history and
    max_iter, at every exit the returned pair satisfies what the solver certified ---------- *)
